@@ -201,7 +201,8 @@ class P(core.Prop):
             n = rng.choice([0, 1, 2, 3, 4, 6, 8, rng.randrange(1, 12)])
             return {'s': ''.join(rng.choice(CRIT) for _ in range(n))}
         if r < 0.85:
-            n = rng.choice([0, 1, 2, 5, 10, 20, rng.randrange(1, 40)])
+            # mostly short; sometimes long enough for a line of several hundred or thousand bytes
+            n = rng.choice([0, 1, 2, 5, 10, 20, rng.randrange(1, 40), rng.randrange(1, 40), 300, 520, 1100])
             alpha = PRINTABLE + ' \t"\\=\r\n' * rng.choice([0, 1, 3])
             return {'s': ''.join(rng.choice(alpha) for _ in range(n))}
         if r < 0.9:
